@@ -58,3 +58,9 @@ EDITS = [
     {"id": "rename-matches", "expect": "silent",
      "edits": [{"file": C, "old": "matches", "new": "pairing", "all": True}]},
 ]
+
+EDITS += [
+    {"id": "dispatch-helper-without-handler", "expect": "silent",
+     "patch": "seeded/C20-dispatch-helper-swallows-valueerror/patch.diff"},
+]
+
